@@ -24,8 +24,10 @@ type globPattern struct {
 type globFlag uint
 
 var typeCbMap = map[string]func(os.FileMode) bool{
-	"dir":     os.FileMode.IsDir,
-	"regular": os.FileMode.IsRegular,
+	"dir": os.FileMode.IsDir,
+	// The mode comes from Lstat, so symbolic links are not followed; as
+	// documented, they count as regular files.
+	"regular": func(m os.FileMode) bool { return m.IsRegular() || m&os.ModeSymlink != 0 },
 }
 
 const (
